@@ -44,7 +44,8 @@ TRUSTED = ["the pickle / copy / copyreg protocol of CPython and the native reduc
            "(no source pin); histories that set the local timezone or the locale, and hist cases whose value is a Date / Duration / Interval, are oracle-only"]
 ASSUMPTIONS = ["CPython with the C datetime module (timedelta.__reduce__ uses the native fields, not Duration's overriding attributes)",
                "aware DateTime cases stay 3 days away from year 1 / 9999 (utcoffset arithmetic would overflow); naive ones cover the full range",
-               "Duration theorems about deepcopy carry C09's float premise float_split_exact_on_D9 (validated on every run by C09's and this check's dur-* streams)"]
+               "the Duration deepcopy theorem holds on C09's exactness domain D9; its float premise float_split_exact_on_D9 is proved (Proofs/FloatRoundTripC09.v) and "
+               "validated on every run by C09's and this check's dur-* streams"]
 VM_SUBSET = 120
 
 ROUTES = list(range(8))           # 0..5 pickle protocols, 6 copy.copy, 7 copy.deepcopy
@@ -144,7 +145,8 @@ def cases(tier, seed):
         _routes(out, "absdur-subsets", "dur", [1] + _dur_args(v))
     for v in ({}, {"weeks": 2, "days": 3}, {"years": 1, "months": 2, "days": 3}, {"days": -3, "hours": -5, "microseconds": -7},
               {"years": 6, "months": -73}, {"days": 6, "hours": 23, "minutes": 59, "seconds": 59, "microseconds": 999999}, {"days": 7},
-              {"days": -7}, {"weeks": -1, "days": 6}, {"seconds": 86400 * 7 - 1}, {"microseconds": -1}, {"microseconds": 1}):
+              {"days": -7}, {"weeks": -1, "days": 6}, {"seconds": 86400 * 7 - 1}, {"microseconds": -1}, {"microseconds": 1},
+              {"weeks": 2, "days": 3, "hours": 5}, {"weeks": -2, "days": -3}, {"years": 1, "months": 2, "weeks": 60, "days": 6, "microseconds": 7}):
         _routes(out, "dur-pinned", "dur", [0] + _dur_args(v))
         _routes(out, "absdur-pinned", "dur", [1] + _dur_args(v))
     # --- magnitudes beyond the float-exact domain of Duration.__new__ (C09's D9)
@@ -192,6 +194,11 @@ def cases(tier, seed):
     ivs.append([[0, 730120], [0, 730120]])
     ivs.append([[1, 0, 0, None], [1, T.MAX_WALL, 0, None]])
     ivs.append([[1, 735000 * T.US_DAY, 0, "UTC"], [1, 735000 * T.US_DAY, 0, "UTC"]])
+    # the Interval that pickle changes (Paris 02:30 fold=1 -> 04:00), forward and given the wrong way round: copy.deepcopy must keep fold, length and invert
+    W0230_ = 63518437800 * T.MEG
+    ivs.append([[1, W0230_, 1, "Europe/Paris"], [1, W0230_ + 5400 * T.MEG, 0, "Europe/Paris"]])
+    ivs.append([[1, W0230_ + 5400 * T.MEG, 0, "Europe/Paris"], [1, W0230_, 1, "Europe/Paris"]])
+    ivs.append([[1, 63713433600 * T.MEG + 31622400 * T.MEG, 0, "UTC"], [1, 63713433600 * T.MEG, 0, "UTC"]])      # 2021-01-01 -> 2020-01-01
     for e1, e2 in ivs:
         for ab in (0, 1):
             _routes(out, "iv-date" if e1[0] == 0 else "iv-dt", "iv", [ab, e1, e2])
@@ -1138,19 +1145,29 @@ def known(c, backend, r):
                     return "duration-deepcopy-inexact-components"
                 return None
             if co[3] != 0:
-                # Duration.__deepcopy__ omits weeks: everything else identical, native value smaller by weeks * 7 days
+                # (repaired: `fix: copy.deepcopy of a Duration keeps its weeks`) Duration.__deepcopy__ omitted weeks: everything else identical,
+                # native value smaller by weeks * 7 days
                 if cc[3] == 0 and cc[1:3] == co[1:3] and cc[4:10] == co[4:10] and cc[11] == co[11] - 7 * co[3] and cc[12:14] == co[12:14]:
                     return "duration-deepcopy-drops-weeks"
             return None
-        if route == 7 and ab == 1 and (co[3] != 0 or co[10] == 1):
-            # AbsoluteDuration through Duration.__deepcopy__: weeks omitted, sign (invert) lost, components otherwise identical
-            if cc[3] == 0 and cc[10] == 0 and cc[1:3] == co[1:3] and cc[4:10] == co[4:10]:
-                return "absoluteduration-deepcopy-sign-weeks"
+        if route == 7 and ab == 1:
+            # AbsoluteDuration through Duration.__deepcopy__.
+            # (repaired: `fix: copy.deepcopy of a Duration keeps its weeks`) weeks omitted, components otherwise identical (the sign may be lost as well)
+            if co[3] != 0 and cc[3] == 0 and cc[1:3] == co[1:3] and cc[4:10] == co[4:10]:
+                return "duration-deepcopy-drops-weeks"
+            # what remains: the components are absolute values, so a negative underlying value comes back positive: invert lost, native value
+            # negated, every component (weeks included) identical
+            if co[10] == 1 and cc[10] == 0 and cc[1:10] == co[1:10]:
+                N = (co[11] * 86400 + co[12]) * T.MEG + co[13]
+                N2 = (cc[11] * 86400 + cc[12]) * T.MEG + cc[13]
+                if N < 0 and N2 == -N:
+                    return "absoluteduration-deepcopy-sign-weeks"
             return None
         return None
     if fn == "iv":
         ab, e1, e2 = a[1:]
         if route == 7:
+            # (repaired: `fix: copy.deepcopy of an Interval`) Interval inherited Duration.__deepcopy__, which called Interval(days=...)
             if st == 1 and cc == [T.EXN["TypeError"]] and "unexpected keyword argument 'days'" in ec[0]:
                 return "interval-deepcopy-typeerror"
             return None
@@ -1196,8 +1213,13 @@ LEVEL_TEXT = ("Machine-checked Coq theorems over the protocol model (Model/Pickl
               "pickle/copy of a DateTime rebuild exactly the fold=0 reading of the same fields (so: identical when fold=0, same instant and offset whenever the wall "
               "time is unique in the zone; REFUTED with fold=1 on a repeated wall time: Europe/Paris 2013-10-27T02:30+01:00 comes back +02:00); Time likewise loses "
               "fold on every route; Duration pickle/copy preserve the native timedelta value always and all components exactly when years=months=0 (REFUTED otherwise), "
-              "Duration.__deepcopy__ drops weeks (exact on weeks=0 within C09's float premise; REFUTED for weeks=2,days=3); Interval copy.copy is the identity on every "
-              "constructed Interval, pickle is the identity when no endpoint has fold=1 (REFUTED otherwise), copy.deepcopy of an Interval ALWAYS raises TypeError. "
+              "Duration.__deepcopy__ rebuilds every public accessor and the native value on C09's exactness domain D9, whatever the weeks are - full strength since the "
+              "repair of duration-deepcopy-drops-weeks (the weeks keyword was missing: Duration(weeks=2,days=3) came back as 3 days); beyond D9 the components no longer add "
+              "up to the value (REFUTED: years=300,days=3,microseconds=7); the deep copy of an AbsoluteDuration is the AbsoluteDuration of the absolute value of its underlying "
+              "timedelta (all components incl. weeks identical, invert False): exact when that value is not negative, REFUTED otherwise (AbsoluteDuration(days=-3,hours=-5)); Interval copy.copy is the identity on every constructed Interval, pickle is the identity when no endpoint has "
+              "fold=1 (REFUTED otherwise), copy.deepcopy is the identity on EVERY constructed Interval (forward / inverted / absolute, Date or DateTime endpoints, fold 0 or 1, "
+              "pendulum or standard-library tzinfo) - full strength since the repair of interval-deepcopy-typeerror (Interval inherited Duration.__deepcopy__, which called "
+              "Interval(days=...) and raised TypeError for every Interval). "
               "Copies in a process with a history (Model/PickleHistory.v: the per-offset cache behind pendulum.timezone(<int>) as a state machine over earlier / later calls): "
               "the cache is transparent (after ANY history the factory returns what it returns in a fresh process), a call that raises leaves it unchanged, constructions and "
               "copies never write it, and original, copy and every call's result are independent of the history - in particular FixedTimezone(off, name) keeps its name on "
@@ -1216,7 +1238,7 @@ TECHNIQUE = "Coq proofs over a data-driven protocol model (argument lists genera
 # C09's float premise float_split_exact_on_D9 is a theorem (Proofs/FloatRoundTripC09.v); the statements that carried it are restated without premise
 TRUSTED = list(TRUSTED) + [
     "Flocq (installed library) correctness theorems for binary64 operations, bridged to Coq's SpecFloat in coq/Proofs/FloatRoundTripBase.v",
-    "standard-library axioms reported by Print Assumptions for the unconditional float theorems only (roundtrip_duration_deepcopy_weeks0, duration_deepcopy_loses_exactly_weeks): ClassicalDedekindReals.sig_not_dec, "
+    "standard-library axioms reported by Print Assumptions for the unconditional float theorems only (roundtrip_duration_deepcopy, absolute_duration_deepcopy_is_absolute_value, roundtrip_absolute_duration_deepcopy_partial): ClassicalDedekindReals.sig_not_dec, "
     "ClassicalDedekindReals.sig_forall_dec, FunctionalExtensionality.functional_extensionality_dep, Classical_Prop.classic (the real-number axioms Flocq and Reals rest on); "
-    "every other theorem, the *_partial forms included, is closed under the global context",
+    "every other theorem, the premise-carrying form roundtrip_duration_deepcopy_given_float_premise included, is closed under the global context",
 ]
